@@ -25,6 +25,9 @@ Addressing (optional): without "addr" the reference `refidx` / the last feature 
  the reference list is: the case's array at position `refidx`, dummy arrays (shape [4], unlabelled set dimension)
  elsewhere.  With "addr" the outcome carries "on": "T" (the case's array) or "D<m>" (dummy m).
 
+   "via": "default" | "retrieve"   (optional, only with stop = Exclusive) the call is made without a stop rule /
+                                   through the deprecated retrieve_data / retrieve_feature_data wrapper
+
 Numbers that are floats in Python travel as the exact rational "num/den" of the double.
 Outcome (both sides): {"ok": {"valid": true, "window": [[a, b], ...], "read": "window"}}  — a valid view whose
 `[:]` equals NumPy's `data[a:b, ...]` on an in-memory copy; {"ok": {"valid": false, "read": "empty"}}; {"err": class}.
@@ -41,6 +44,7 @@ LEAN_MODULE = "NixModel.Props.C08"
 THEOREMS = [
     "Nix.C08.C08_generated_decisions",
     "Nix.C08.C08_source_shape",
+    "Nix.C08.C08_default_stop_rule",
     "Nix.C08.C08_units",
     "Nix.C08.C08_axis",
     "Nix.C08.C08_region_shape",
@@ -78,10 +82,19 @@ ASSUMPTIONS = [
     "Tag.feature_data with link type 'indexed' returns the whole array (a tag has one position; documented, as the "
     "code comment says); a negative extent on a range/set dimension raises a plain IndexError, which the property's "
     "'out-of-bounds error' is read to include (OutOfBounds is a subclass of IndexError)",
-    "the reference list, feature lookup and the positions/extents arrays are represented by their counts, the "
-    "selected array and its stored numbers; negative indices are outside the model",
+    "references and features are lists in creation order of (id, name, array) / (id, data id, data name, link type, "
+    "array); a key is an int (negative: from the end), a text with CPython's is_uuid verdict attached, or 'another "
+    "object'; that h5py iterates links in creation order and get_by_pos uses the creation-order index is checked by the "
+    "correspondence on real files (including removal and re-append); negative *position* indices of a multi-tag and "
+    "DataFrame features are outside the model",
+    "OffBandAt (C08_axis_off_band / C08_region_off_band) covers end points up to 10^11 samples from the first one "
+    "either way: the range in which the generated np.isclose band stays below half a sample",
+    "the decisions and check orders of tag.py / multi_tag.py stated by C08_generated_decisions, C08_source_shape and "
+    "C08_default_stop_rule are re-rendered from the source by harness/extract/tagshape.py on every run; a source the "
+    "translator does not recognise is a broken tie (large oracle budget), not by itself a violation",
 ]
-TRUSTED_EXTRA = ["models imported from C07 (Pure/Dim.lean + Generated/Tolerances.lean), C09 (Pure/Units.lean + "
+TRUSTED_EXTRA = ["harness/extract/tagshape.py (ast translator of tag.py / multi_tag.py -> Generated/TagShape.lean)",
+                 "models imported from C07 (Pure/Dim.lean + Generated/Tolerances.lean), C09 (Pure/Units.lean + "
                  "Generated/UnitsTables.lean) and C06 (Pure/DataView.lean): their translators and correspondences"]
 
 
@@ -321,23 +334,34 @@ class Impl:
             return {"bad": "setup failed: %s: %s" % (type(e).__name__, str(e)[:120])}
         stop = getattr(self.nix.SliceMode, case["stop"])
         try:
+            # (re)write only what differs from what this holder carries already
             if case["k"] == "tag":
-                h.position = [fl(x) for x in case["pos"]]
-                h.extent = [fl(x) for x in case["ext"]]
-            h.units = list(case["units"])
+                if info.get("pos") != case["pos"]:
+                    info["pos"] = None
+                    h.position = [fl(x) for x in case["pos"]]
+                    info["pos"] = list(case["pos"])
+                if info.get("ext") != case["ext"]:
+                    info["ext"] = None
+                    h.extent = [fl(x) for x in case["ext"]]
+                    info["ext"] = list(case["ext"])
+            if info.get("units") != case["units"]:
+                info["units"] = None
+                h.units = list(case["units"])
+                info["units"] = list(case["units"])
         except Exception as e:
             return {"bad": "tag setup failed: %s: %s" % (type(e).__name__, str(e)[:120])}
         try:
-            if case["k"] == "tag":
-                if case["op"] == "tagged":
-                    v = h.tagged_data(pk, stop)
-                else:
-                    v = h.feature_data(pk, stop)
+            via = case.get("via")
+            args = (pk,) if case["k"] == "tag" else (case["idx"], pk)
+            if via == "retrieve":
+                import warnings
+                with warnings.catch_warnings():
+                    warnings.simplefilter("ignore")
+                    v = (h.retrieve_data if case["op"] == "tagged" else h.retrieve_feature_data)(*args)
+            elif via == "default":
+                v = (h.tagged_data if case["op"] == "tagged" else h.feature_data)(*args)
             else:
-                if case["op"] == "tagged":
-                    v = h.tagged_data(case["idx"], pk, stop)
-                else:
-                    v = h.feature_data(case["idx"], pk, stop)
+                v = (h.tagged_data if case["op"] == "tagged" else h.feature_data)(*args, stop)
             valid = bool(v.valid)
             data = np.asarray(v[:])
         except Exception as e:
@@ -897,6 +921,8 @@ def gen_scenario(rng, kmode=None):
                 c.update(op="tagged", nrefs=nrefs, refidx=rng.randrange(nrefs))
                 if rng.random() < 0.02:
                     c.update(nrefs=rng.choice([0, 1]), refidx=rng.choice([1, 2]))
+            if stop == "Exclusive" and rng.random() < 0.12:
+                c["via"] = rng.choice(["default", "retrieve"])
             if addressed:
                 at = None
                 if c["op"] == "feature" and c["nfeats"] > 0 and rng.random() < 0.7:
@@ -924,6 +950,9 @@ def gen_scenario(rng, kmode=None):
             ext = arr(lambda x: x[1], [])                               # zero-length: falsy
         elif r < 0.95:
             ext = arr(lambda x: x[1], rows[:-2])                        # fewer rows
+        elif r < 0.975 and plen == 1:
+            # 1-D positions with (n, 1) extents or the other way round: the shapes differ
+            ext = {"r": 2, "c": 1, "v": [er for _, er in rows]} if one_d else {"r": 1, "v": [er[0] for _, er in rows]}
         else:
             ext = {"r": 2, "c": plen + 1, "v": [er + ["0/1"] for _, er in rows]}      # other width / rank
         link = rng.choice(LINKS)
@@ -951,6 +980,8 @@ def gen_scenario(rng, kmode=None):
                         c["churn"] = True
                 if addressed:
                     gen_addr(rng, c, at)
+                if stop == "Exclusive" and rng.random() < 0.12:
+                    c["via"] = rng.choice(["default", "retrieve"])
                 cases.append(c)
         if feat and link == "indexed":
             for i in [shape[0] - 1, shape[0], shape[0] + 1]:
@@ -999,6 +1030,44 @@ def gen_prefix_sweep(rng):
     return cases
 
 
+def gen_long(rng):
+    """a long regularly sampled (or unlabelled set) axis: region boundaries between two samples at large indices,
+    where a tolerance or a precision that grows with the index would decide wrongly"""
+    n = rng.choice([60000, 90000, 120000])
+    kind = rng.choice(["sampled", "sampled", "sampled", "set"])
+    ax = {"kind": kind, "n": n, "tp": None, "dp": None, "base": None}
+    if kind == "sampled":
+        ax["si"] = rng.choice([Fraction(1), Fraction(1, 2), Fraction(1, 20), Fraction(1, 20000), Fraction(1, 1024)])
+        ax["off"] = rng.choice([None, Fraction(3), Fraction(-1, 2)])
+        if rng.random() < 0.5:
+            ax["base"] = rng.choice(BASES)
+            ax["tp"], ax["dp"] = rng.choice([("", ""), ("m", "m"), ("", "m"), ("k", "")])
+    else:
+        ax["nl"] = 0
+    dims = [axis_dim(ax)]
+    units = [] if ax["base"] is None else [ax["tp"] + ax["base"]]
+    rows = []
+    for _ in range(8):
+        k = rng.randint(n // 6, n - 30)
+        f = rng.choice([Fraction(0), Fraction(1, 10), Fraction(1, 4), Fraction(2, 5), Fraction(1, 2), Fraction(3, 5),
+                        Fraction(9, 10)])
+        g = rng.choice([Fraction(0), Fraction(1, 10), Fraction(2, 5), Fraction(1, 2), Fraction(3, 5), Fraction(9, 10)])
+        m = rng.choice([0, 1, 5, 10, 12])
+        step = axis_step(ax, k)
+        p = axis_coord(ax, k) + f * step
+        e = (m + g - f) * step if m > 0 else rng.choice([Fraction(0), g * step])
+        rows.append(([fs(to_double(p))], [fs(to_double(max(e, Fraction(0))))]))
+    cases = []
+    base = {"shape": [n], "dims": dims, "units": units}
+    pos = {"r": 2, "c": 1, "v": [r[0] for r in rows]}
+    ext = {"r": 2, "c": 1, "v": [r[1] for r in rows]}
+    for i, (pr, er) in enumerate(rows):
+        for stop in STOPS:
+            cases.append(dict(base, k="tag", op="tagged", pos=pr, ext=er, stop=stop, nrefs=1, refidx=0))
+            cases.append(dict(base, k="mtag", op="tagged", pos=pos, ext=ext, stop=stop, idx=i, nrefs=1, refidx=0))
+    return cases
+
+
 def gen_malformed(rng):
     """outside the property: descriptor count != rank, negative interval, unsorted ticks (through no API check)"""
     out = []
@@ -1042,6 +1111,10 @@ def gen_cases(ctx, n_scen, n_sweeps):
         for c in gen_malformed(rng):
             cases.append(c)
             tags.append("malformed")
+    for _ in range(max(n_scen // 400, 1)):
+        for c in gen_long(rng):
+            cases.append(c)
+            tags.append("long-axis")
     return cases, tags
 
 
@@ -1076,7 +1149,7 @@ def correspondence(ctx):
     impl = Impl(ctx, "corr")
     disagreements = []
     seen = set()
-    dist = {"ops": {}, "class": {}, "impl_outcome": {}, "rank": {}, "dim_kinds": {}, "link": {}, "stop": {},
+    dist = {"ops": {}, "class": {}, "impl_outcome": {}, "rank": {}, "dim_kinds": {}, "link": {}, "stop": {}, "via": {},
             "scale_exponent": {}, "positions": {}, "addressed_by": {}, "units_vs_positions": {}, "extent": {}}
     compared = 0
     marginal_differ = 0
@@ -1095,6 +1168,7 @@ def correspondence(ctx):
             _bump(dist["rank"], str(len(c["shape"])))
             _bump(dist["dim_kinds"], "+".join(d[0] for d in c["dims"]))
             _bump(dist["stop"], c["stop"])
+            _bump(dist["via"], c.get("via", "explicit stop rule"))
             if c["op"] == "feature":
                 _bump(dist["link"], c["link"])
             if c["k"] == "mtag":
@@ -1416,7 +1490,7 @@ def oracle(ctx, broken, hints):
     first += core.load_corpus(PROP)
     n = 2500 if broken else ctx.budget(60, 600)
     sweeps = 3 if broken else ctx.budget(1, 3)
-    deadline = time.time() + (ctx.budget(90, 600) if broken else 10 ** 6)
+    deadline = time.time() + ((90 if ctx.quick() else 600) if broken else 10 ** 6)
     ENOUGH = 6
     impl = Impl(ctx, "oracle")
     failures, seen = [], set()
@@ -1439,8 +1513,8 @@ def oracle(ctx, broken, hints):
         for c in first:
             run(c)
         # generated stream, scenario by scenario (same rng consumption as one big batch)
-        todo = [("sweep", None)] + [("scen", None)] * n + [("sweep", None)] * (sweeps - 1) + \
-            [("mal", None)] * max(n // 25, 2)
+        todo = [("sweep", None), ("long", None)] + [("scen", None)] * (n // 2) + [("long", None)] * (2 if broken else 0) \
+            + [("scen", None)] * (n - n // 2) + [("sweep", None)] * (sweeps - 1) + [("mal", None)] * max(n // 25, 2)
         for kind, _ in todo:
             if broken and (len(failures) >= ENOUGH or time.time() > deadline):
                 stopped = "enough-failures" if len(failures) >= ENOUGH else "deadline"
@@ -1449,6 +1523,8 @@ def oracle(ctx, broken, hints):
                 batch = gen_scenario(ctx.rng)
             elif kind == "sweep":
                 batch = gen_prefix_sweep(ctx.rng)
+            elif kind == "long":
+                batch = gen_long(ctx.rng)
             else:
                 batch = gen_malformed(ctx.rng)
             for c in batch:
@@ -1483,23 +1559,35 @@ READY = True
 MANIFEST = {
     "level_text": "Kernel-checked theorems over a Lean model of the region computation of nixio/tag.py and "
                   "nixio/multi_tag.py (_scale_position, _calc_data_slices, _slices_in_data, tagged_data, feature_data, "
-                  "_calc_data_slices_mtag) built on the C07 dimension model (generated np.isclose tolerances), the C09 "
-                  "unit model (generated tables) and the C06 DataView model. For arrays of any rank, any mix of "
-                  "sampled/range/set descriptors, any position/extent vectors (shorter than the rank, extent absent / "
-                  "zero / negative), any unit pair of the SI table and both stop rules: a valid result's window is on "
-                  "every axis exactly the set of sample indices whose coordinate lies in the region scaled by the exact "
-                  "prefix ratio; otherwise the result is an invalid empty view, IndexError or OutOfBounds, and it is one "
-                  "of those whenever an axis has no sample in the region or the region reaches a sample that is not "
-                  "stored (induction over the axis list; composition of C07.range_indices_*, C09.scaling_ratio / "
-                  "not_scalable, C06 window validity). Multi-tag row selection and 1-D -> 2-D promotion, feature data "
-                  "per link type (tagged / indexed / untagged) for Tag and MultiTag, refusal classes.",
-    "level_note": "Trusted: Lean kernel; axioms propext/Classical.choice/Quot.sound; the C07/C09 translators; Rat "
-                  "stand-ins for IEEE doubles and NumPy (np.isclose, np.round, np.less_equal broadcasting); the "
-                  "correspondence harness (real Tag/MultiTag/Feature objects on real HDF5 files, outcome = error class, "
-                  "valid flag, window, and view[:] against NumPy). Partial: inherits C07's Separated hypothesis "
-                  "(end points strictly inside the np.isclose band of a sample snap to it by design) and exact-rational "
-                  "arithmetic; reading the window is C06/C01; descriptor count != rank and negative indices are "
-                  "outside the theorems.",
+                  "_calc_data_slices_mtag, the reference / feature lookups of container.py, the default stop rule and the "
+                  "deprecated retrieve_* wrappers) built on the C07 dimension model (generated np.isclose tolerances), the "
+                  "C09 unit model (generated tables) and the C06 DataView model; the decisions of the code that are not "
+                  "arithmetic (slice-mode test on the extent entry, stop position, slice(a, b+1), stop <= extent, row "
+                  "test of indexed features, 'none' text, order and exception class of every check in the eight "
+                  "functions, default stop rules) are re-rendered from the source into Generated/TagShape.lean and the "
+                  "theorems are stated over them. For arrays of any rank, any mix of sampled/range/set descriptors, any "
+                  "position/extent vectors (shorter than the rank, extent absent / zero / negative), any unit pair of "
+                  "the SI table and both stop rules: a valid result's window is on every axis exactly the set of sample "
+                  "indices whose coordinate lies in the region scaled by the exact prefix ratio; otherwise the result "
+                  "is an invalid empty view, IndexError or OutOfBounds, and it is one of those whenever an axis has no "
+                  "sample in the region or the region reaches a sample that is not stored (induction over the axis "
+                  "list; composition of C07.range_indices_*, C09.scaling_ratio / not_scalable, C06 window validity). "
+                  "The tolerance hypothesis is given in checkable form (OffBandAt: each end point, measured in samples, "
+                  "is an integer or outside the band of its two neighbours, up to 10^11 samples) and proved sufficient; "
+                  "end points on sample coordinates always meet it. An extent of zeros equals no extent; no position = "
+                  "whole array; fewer units than positions = refused. Multi-tag row selection and 1-D -> 2-D promotion, "
+                  "feature data per link type (tagged / indexed / untagged) for Tag and MultiTag, refusal classes; a "
+                  "reference / feature addressed by index (negative from the end), id, name, data id or data name is "
+                  "the one found by the modelled lookup, and the region / link-type theorems apply to it.",
+    "level_note": "Trusted: Lean kernel; axioms propext/Classical.choice/Quot.sound; the C07/C09 translators and "
+                  "tagshape.py; Rat stand-ins for IEEE doubles and NumPy (np.isclose, np.round, np.less_equal "
+                  "broadcasting); CPython's uuid.UUID for is_uuid; the correspondence harness (real Tag/MultiTag/Feature "
+                  "objects on real HDF5 files, outcome = error class, valid flag, window, which array the view is on, "
+                  "and view[:] against NumPy). Partial: the one-axis statement without a tolerance hypothesis is false "
+                  "strictly inside the np.isclose band (C08_axis_full_counterexample, inherited from C07's open "
+                  "finding); exact-rational arithmetic; reading the window is C06/C01; descriptor count != rank, "
+                  "negative position indices and DataFrame features are outside the theorems.",
     "technique": "Lean 4 proof (inductive lock-step predicates over the axis list, composition of the C06/C07/C09 "
-                 "theorems) with differential correspondence and a Fraction brute-force oracle against real nixio",
+                 "theorems, ast-generated decision definitions and guard tables) with differential correspondence and a "
+                 "Fraction brute-force oracle against real nixio",
 }
